@@ -169,7 +169,19 @@ def gen(rng, size='small', focus=None):
             t += rng.choice([0, 80, 160])
         r = rng.random()
         prio = rng.choice([32, 32, 184, 152, 72])
-        if processors and r < 0.30:
+        if processors and r < 0.12 and focus in ('faults', 'maint'):
+            # a failure that arrives while the machine is already shut down (requested during the shutdown)
+            d = rng.choice(processors)
+            d1, d2, d3 = rng.choice([0, 4]), rng.choice([0, 4, 8]), rng.choice([16, 24, 32])
+            if maints and rng.random() < 0.5:
+                ext.append(['at', t, new_script([['create_wo', rng.choice(maints), d, -1]]), prio])
+            else:
+                ext.append(['at', t, new_script([['shutdown', d]]), prio])
+                ext.append(['at', t + d3, new_script([['restore', d]]), prio])
+            ext.append(['at', t + d1, new_script([['fail_at', d, t + d1 + d2]]), 32])
+            if rng.random() < 0.6:
+                ext.append(['at', t + d3 + rng.choice([0, 8]), new_script([['restore', d]]), prio])
+        elif processors and r < 0.30:
             d = rng.choice(processors)
             ext.append(['now', ['fail_at', d, t]])
             if rng.random() < 0.7:
